@@ -417,6 +417,12 @@ func (o *C08) OnExtCall(w *World, c *ExtCall) {
 	if c.Expected == nil || c.Kind == "deposit" {
 		return
 	}
+	if w.Tainted {
+		// validators that reported false events hold a third or more of the bonded power: what the hub believes
+		// about the external chain (and hands to relayers as its current signer set) is no longer owed to be true
+		w.St.Probe("relay-judgement-skipped-byzantine-bound")
+		return
+	}
 	w.St.Check("C08:accept-iff")
 	w.St.Probe("nontrivial")
 	got := c.Err == nil
